@@ -38,7 +38,8 @@ Mac(pw, what) == [t |-> "mac", pw |-> pw, over |-> what]
 
 \* A certificate is named by issuer AND serial number; the holders are certified so that neither alone identifies one
 Issuer == [a |-> "CA1", b |-> "CA1", c |-> "CA2", x |-> "CA2"]
-Serial == [a |-> 1, b |-> 2, c |-> 1, x |-> 2]
+\* (and the two certificates of one issuer carry serial numbers of the same magnitude: serials are signed INTEGERs)
+Serial == [a |-> 77, b |-> -77, c |-> 77, x |-> -77]
 Ias(h) == <<Issuer[h], Serial[h]>>
 ASSUME \A g, h \in Holders : Ias(g) = Ias(h) => g = h
 
